@@ -27,10 +27,10 @@ import (
 )
 
 type remoteCase struct {
-	Shape string `json:"shape"`
-	VA    string `json:"va"` // version written by a.sysl
-	VB    string `json:"vb"` // version written by b.sysl
-	NoCheck bool `json:"nocheck"`
+	Shape   string `json:"shape"`
+	VA      string `json:"va"` // version written by a.sysl
+	VB      string `json:"vb"` // version written by b.sysl
+	NoCheck bool   `json:"nocheck"`
 }
 
 type fakeRetriever struct {
